@@ -155,6 +155,29 @@ def check_row(ctx, row, seed):
         except Exception as ex:
             out.append(("dagger-raises:" + name, "%s%s.dagger.matrix raises %r" % (name, p, ex)))
             break
+    # histories: a gate whose matrix has already been looked at is re-parametrised (bind / replace_params) - the new
+    # gate's matrix is the polynomial at the NEW parameters
+    if npar > 0 and not out:
+        import sympy
+
+        syms = sympy.symbols("t0:%d" % npar)
+        try:
+            gs = gate_of(name, list(syms))
+            gs.matrix
+            some = [tuple(float(x) for x in q) for q in (pts[1], pts[5], pts[-1], pts[-2])]
+            gn = gate_of(name, list(some[0]))
+            gn.matrix
+            for q in some[1:]:
+                want = poly_eval(row["poly"], q)
+                for how, gg in (("bind after .matrix", gs.bind(dict(zip(syms, q)))), ("replace_params after .matrix", gs.replace_params(q)), ("numeric replace_params after .matrix", gn.replace_params(q))):
+                    if tuple(float(x) for x in gg.params) != q:
+                        out.append(("reparam-params:" + name, "%s: %s reports parameters %s, expected %s" % (name, how, gg.params, q)))
+                    elif not close(np_matrix(gg.matrix), want):
+                        out.append(("reparam-matrix:" + name, "%s: matrix after %s to %s is not the gate's matrix at these parameters" % (name, how, q)))
+                gn = gn.replace_params(q)
+                gn.matrix
+        except Exception as ex:
+            out.append(("reparam-raises:" + name, "%s: re-parametrising raised %s: %s" % (name, type(ex).__name__, str(ex)[:200])))
     return out
 
 
